@@ -88,6 +88,26 @@ SHORTS = ['+=', '-=', '*=', '/=']
 NEWLINES = [';', '\n', '\r\n']
 
 
+class Cyc:
+    """tiny deterministic chooser so that a case can be (types, seed)"""
+
+    def __init__(self, seed):
+        self.s = (seed * 2654435761 + 12345) & 0x7fffffff
+
+    def _next(self):
+        self.s = (self.s * 1103515245 + 12345) & 0x7fffffff
+        return self.s >> 8
+
+    def choice(self, seq):
+        return seq[self._next() % len(seq)]
+
+    def random(self):
+        return (self._next() % 100003) / 100003.0
+
+    def randrange(self, n):
+        return self._next() % n
+
+
 def tok(typ, rnd, simple=False, newline=None):
     """-> ((type, value), source text)"""
     if typ == 'NAME':
@@ -153,3 +173,41 @@ def operator_pairs(types):
     """ordered pairs of successive operator tokens (ignoring what stands between them)"""
     ops = [t for t in types if t in OPERATOR_TOKENS]
     return set(zip(ops, ops[1:]))
+
+
+def render_layout(types, rnd, bracket_newlines=0.25, extra_blanks=0.2, comments=0.0, newline=None, simple=False):
+    """Rendering with layout noise that the grammar declares insignificant.  Tokens stay separated by at
+    least one blank (or a line break where that is not a token), so boundaries remain ground truth.
+    -> (token list, text, spans[(start, end)] per token)"""
+    parts, toks, spans = [], [], []
+    depth, pos = 0, 0
+    for i, t in enumerate(types):
+        if t in ('LPAREN', 'LBRACKET', 'LBRACE'):
+            depth_after = depth + 1
+        elif t in ('RPAREN', 'RBRACKET', 'RBRACE'):
+            depth_after = depth - 1
+        else:
+            depth_after = depth
+        if i:
+            gap = ' '
+            r = rnd.random()
+            if depth > 0 and r < bracket_newlines:
+                gap = rnd.choice(['\n', ' \n ', '\r\n', '\n\n\t', ' \r\n\r\n '])
+                if comments and rnd.random() < comments:
+                    gap = ' # c, ) ] ; \'' + gap
+            elif r < bracket_newlines + extra_blanks:
+                gap = rnd.choice(['  ', '\t', ' \t ', '   '])
+            parts.append(gap)
+            pos += len(gap)
+        nl = ';' if (t == 'NEWLINE' and (depth != 0)) else newline
+        tk, s = tok(t, rnd, simple, nl)
+        if t == 'NEWLINE' and comments and s != ';' and rnd.random() < comments:
+            c = '# note ; ( "'
+            parts.append(c + ' ')
+            pos += len(c) + 1
+        toks.append(tk)
+        parts.append(s)
+        spans.append((pos, pos + len(s)))
+        pos += len(s)
+        depth = depth_after
+    return toks, ''.join(parts), spans
